@@ -299,7 +299,7 @@ var slotsOfFormat = map[string][4]bool{
 }
 
 func checkTableWidths(c *core.Ctx, t *InstTables) {
-	st := c.Rule("R04.18", "for every format whose decode function takes an operand's register count from the decode table (it reads InstType.DSTWidth / SRC0Width / SRC1Width / SRC2Width), every row of that format agrees with its own mnemonic: a slot the mnemonic makes 64 bits wide (v_trunc_f64, v_cvt_i32_f64 source, s_bcnt1_i32_b64 source, v_mad_u64_u32 addend and result, s_cmp_eq_u64 ...) has table width 64, and a destination the mnemonic makes 32 bits wide does not have width 64 (the mnemonic grammar and its exceptions are transcribed from the GCN3 / CDNA3 manuals; mnemonics outside the grammar are left undecided and counted)", 60)
+	st := c.Rule("R04.18", "for every format whose decode function takes an operand's register count from the decode table (it reads InstType.DSTWidth / SRC0Width / SRC1Width / SRC2Width), every row of that format agrees with its own mnemonic: a slot the mnemonic makes 64 bits wide (v_trunc_f64, v_cvt_i32_f64 source, s_bcnt1_i32_b64 source, v_mad_u64_u32 addend and result, s_cmp_eq_u64 ...) has table width 64, and a destination or source the mnemonic makes 32 bits wide (the shift amount of v_lshlrev_b64, the segment select of v_trig_preop_f64, the bit index of s_bitset0_b64) does not have width 64 (the mnemonic grammar and its exceptions are transcribed from the GCN3 / CDNA3 manuals; mnemonics outside the grammar are left undecided and counted)", 60)
 	// which (format, slot) the decoder takes from the table
 	fieldNames := [4]string{"DSTWidth", "SRC0Width", "SRC1Width", "SRC2Width"}
 	consults := map[string][4]bool{}
@@ -352,7 +352,7 @@ func checkTableWidths(c *core.Ctx, t *InstTables) {
 			}
 			st.Instances++
 			have := r.Widths[i]
-			bad := (want[i] == 64 && have != 64) || (i == 0 && want[i] == 32 && have == 64)
+			bad := (want[i] == 64 && have != 64) || (want[i] == 32 && have == 64)
 			if want[i] == -1 {
 				// the decoders build Src2 whenever its table width is not zero
 				st.Ob(have == 0)
@@ -379,7 +379,7 @@ func widthEffect(slot int, have, want int64) string {
 	case want == 64:
 		return "gives the operand one register instead of two"
 	}
-	return "gives the operand two registers instead of one"
+	return "gives the operand two registers instead of one: a register there is decoded and printed as a pair, and the disassembly no longer assembles back to this encoding"
 }
 
 // R04.19: which VOP3 instructions use the VOP3b layout (an SDST field instead of ABS /
